@@ -15,7 +15,7 @@ import (
 func init() {
 	register("C08", PropCheck{
 		Title:      "No sequence of client inputs can crash the engine or corrupt a session",
-		Explain:    "Named crash and consistency mechanisms, decided structurally: (R1) every explicit panic in a library function reachable (CHA over the library) from Exec/Flush/Finish/Reset is classified by the condition that controls it, not by the function it sits in (so a guard moved into a helper keeps its class) - flag index against BitSize and self-move (excluded by the property's well-formedness assumptions), Db.Safe and Persister.Invalid (configuration misuse), infeasible (checked: guarded by a test that an earlier return already excluded), depth against MaxLevel (checked: every reachable call site of the exported state functions that reach it lies behind a comparison with state.MaxLevel) - and a reachable panic controlled by anything else is a violation; (R2) navigation depth and cache scopes move in lockstep: Down/Push and Up/Pop are paired on every path and no other frame-count change happens in vm/engine; (R3) browsing out of range is an error, not a crash: every index and slice in Sizer.GetAt and Menu.applyPage/shiftMenu is proved in bounds by the zone engine, applyPage reports *BrowseError for an index beyond the page count, and Vm.Render answers a BrowseError by moving to the catch node and rendering again; (R4) every byte index in the input-validation functions of package vm is proved in bounds (arbitrary client bytes reach them); (R5) the cache's size accounting rules (C09 R4-R6: value classes of every CacheUseSize update, rollback before every error return, scope release) hold, so accounting matches contents after every request; (R6) no lossy integer narrowing in any function reachable from the entry points (constructors included): every conversion to a type that cannot hold all values of its source type has an operand the zone engine proves within the target range at that point, or is a length (built from len() results only) converted to at least 32 bits, or the number of page cursors converted to 16 bits (both covered by stated assumptions) - a wrapped size, limit or count is how a buffer ends up shorter than its index range. (R7) every index and slice expression in every function reachable from the entry points (103 sites with source positions today, 766 counting compiler-built ones) is proved in bounds by the zone engine, using class invariants and callee summaries that are themselves checked inductively over every writer in the library before they are used: the cache always holds at least one frame (every store to Cache.Cache is a non-empty literal, an append to itself, a re-slice proved non-empty, or restored by a growing call before the function returns), the frame lookup returns a negative constant or a proved frame number, every storage key starts with its type byte (LookupKey.Default non-empty, Translation nil or non-empty, ToKey sets the default key on every success path, the key builder's result is proved non-empty); two small classes are decided by their own structural argument: flag bytes indexed by bit/8 where the bit is below BitSize on a dominating edge in the function or, for helpers, at every library call site (bounds kept as affine expressions through up to three levels), and a frame number parameter that every library caller bounds by Levels(). (R8) every map that is written in a function reachable from the entry points is non-nil: made in the same function, a frame of the cache (every value stored into the frame list is a made map), a field that is tested for nil and made before the write, a field that every allocation of its struct in the library is followed by a store of a made map before the allocating function returns and that every other store in the library sets to a made map, a parameter or library result traced to one of these at every call site / return; memDb.store is nil until Connect, which the Db interface requires before use (assumed) (R9) in the engine's exec backend the code recorded after Vm.Run is the run's own result and is recorded only behind the run's success edge - code put back after a failed run belongs to another node than the one the run left and routes the next input into State.Down's self-move panic (added after seeded change C08-G). The flag-index class of R7 rests on BitSize <= 8*len(Flags); that premise is now a checked invariant: State.BitSize and the State.Flags field are stored only on a State allocated in the same function, with the byte count computed by the rounding helper from the very expression stored as BitSize (added after seeded change C15-J, which no check reported at first). (R10) = C20 R2: every non-error return of Flush passes the reset or the exiting==false edge (added after seeded change C08-I). (R11) State/Memory.Invalidate - after which Persister.Save panics - is called only by the pre-VM hook; (R12) no Must-style helper of the standard library is applied to run-time data in a function on the request path (added after seeded changes C08-K and C08-L).",
+		Explain:    "Named crash and consistency mechanisms, decided structurally: (R1) every explicit panic in a library function reachable (CHA over the library) from Exec/Flush/Finish/Reset is classified by the condition that controls it, not by the function it sits in (so a guard moved into a helper keeps its class) - flag index against BitSize and self-move (excluded by the property's well-formedness assumptions), Db.Safe and Persister.Invalid (configuration misuse), infeasible (checked: guarded by a test that an earlier return already excluded), depth against MaxLevel (checked: every reachable call site of the exported state functions that reach it lies behind a comparison with state.MaxLevel) - and a reachable panic controlled by anything else is a violation; (R2) navigation depth and cache scopes move in lockstep: Down/Push and Up/Pop are paired on every path and no other frame-count change happens in vm/engine; (R3) browsing out of range is an error, not a crash: every index and slice in Sizer.GetAt and Menu.applyPage/shiftMenu is proved in bounds by the zone engine, applyPage reports *BrowseError for an index beyond the page count, and Vm.Render answers a BrowseError by moving to the catch node and rendering again; (R4) every byte index in the input-validation functions of package vm is proved in bounds (arbitrary client bytes reach them); (R5) the cache's size accounting rules (C09 R4-R6: value classes of every CacheUseSize update, rollback before every error return, scope release) hold, so accounting matches contents after every request; (R6) no lossy integer narrowing in any function reachable from the entry points (constructors included): every conversion to a type that cannot hold all values of its source type has an operand the zone engine proves within the target range at that point, or is a length (built from len() results only) converted to at least 32 bits, or the number of page cursors converted to 16 bits (both covered by stated assumptions) - a wrapped size, limit or count is how a buffer ends up shorter than its index range. (R7) every index and slice expression in every function reachable from the entry points (103 sites with source positions today, 766 counting compiler-built ones) is proved in bounds by the zone engine, using class invariants and callee summaries that are themselves checked inductively over every writer in the library before they are used: the cache always holds at least one frame (every store to Cache.Cache is a non-empty literal, an append to itself, a re-slice proved non-empty, or restored by a growing call before the function returns), the frame lookup returns a negative constant or a proved frame number, every storage key starts with its type byte (LookupKey.Default non-empty, Translation nil or non-empty, ToKey sets the default key on every success path, the key builder's result is proved non-empty); two small classes are decided by their own structural argument: flag bytes indexed by bit/8 where the bit is below BitSize on a dominating edge in the function or, for helpers, at every library call site (bounds kept as affine expressions through up to three levels), and a frame number parameter that every library caller bounds by Levels(). (R8) every map that is written in a function reachable from the entry points is non-nil: made in the same function, a frame of the cache (every value stored into the frame list is a made map), a field that is tested for nil and made before the write, a field that every allocation of its struct in the library is followed by a store of a made map before the allocating function returns and that every other store in the library sets to a made map, a parameter or library result traced to one of these at every call site / return; memDb.store is nil until Connect, which the Db interface requires before use (assumed) (R9) in the engine's exec backend the code recorded after Vm.Run is the run's own result and is recorded only behind the run's success edge - code put back after a failed run belongs to another node than the one the run left and routes the next input into State.Down's self-move panic (added after seeded change C08-G). The flag-index class of R7 rests on BitSize <= 8*len(Flags); that premise is now a checked invariant: State.BitSize and the State.Flags field are stored only on a State allocated in the same function, with the byte count computed by the rounding helper from the very expression stored as BitSize (added after seeded change C15-J, which no check reported at first). (R10) = C20 R2: every non-error return of Flush passes the reset or the exiting==false edge (added after seeded change C08-I). (R11) State/Memory.Invalidate - after which Persister.Save panics - is called only by the pre-VM hook; (R12) no Must-style helper of the standard library is applied to run-time data in a function on the request path (added after seeded changes C08-K and C08-L). (R13) = C04 R10: the engine re-attaches its state and cache after saving a new session (added after seeded change C08-O). (R14) every dereference of a value loaded from State.Language on the request path lies behind the non-nil edge of a nil test of that field in the same function (added after seeded change C08-P, a log argument that dereferenced it after an ignored SetLanguage error).",
 		NotDecided: "implicit panics other than index/slice bounds and nil-map writes: nil dereference, a back end used before Connect, the one unchecked type assertion (the context's \"Language\" value, written only by the library: C18 R3); persisted snapshots are assumed to be ones the library wrote (a hand-made snapshot can break the class invariants R7 relies on); the relation BitSize <= 8*len(Flags) is the constructor's arithmetic and is assumed (its narrowing-free computation is R6); 'can still be saved, loaded and continued' as a whole-history statement; input validation preceding every effect is C17.",
 		Assume:     []string{"calls through interfaces and function values (logging, formatting) do not write the fields of renderer objects being read (used to unify repeated loads of a field)", "byte strings are shorter than 2^32 bytes and a node has fewer than 65536 pages (R6 classes length32 / pages16)", "objects of the library's struct types are created by the library's constructors, and persisted snapshots are ones the library wrote (class invariants of R7/R8)", "State.BitSize <= 8*len(State.Flags): the constructor's arithmetic (R7 flag bytes; its narrowing-free computation is R6)", "Db.Connect is called before a back end is used (R8 memDb.store)"},
 		Run:        runC08,
@@ -172,6 +172,8 @@ func runC08(w *core.World, r *core.Report) {
 	r.Rule("R10", "a gracefully ended session is always unwound (C20 R2): every non-error return of Flush passes the reset or the exiting==false edge - an ended but un-unwound session descends into its own node on the next request")
 	r.Rule("R9", "the code the engine records after a run is the run's result, recorded on the run's success edge only")
 	r.Rule("R8", "every map written on the request path is non-nil: fresh, a cache frame, a field made by every constructor and writer, or memDb.store (Connect first, assumed)")
+	r.Rule("R14", "State.Language, nil until a language is selected, is dereferenced only behind a nil test")
+	r.Rule("R13", "the engine re-attaches its state and cache after saving a new session (C04 R10): stack and cache scopes of the stored session stay in step")
 	r.Rule("R7", "every index/slice expression in functions reachable from the entry points is proved in bounds (zone engine + checked class invariants and summaries)")
 	r.Rule("R6", "no lossy integer narrowing on the request path (incl. constructors): operand proved in range, or a length < 2^32 / page count < 2^16 by assumption")
 
@@ -267,6 +269,8 @@ func runC08(w *core.World, r *core.Report) {
 	// ---- R9 -----------------------------------------------------------------------------------
 	checkCodeRecordedFromRun(w, r, "R9")
 	checkFlushResetsOnGracefulEnd(w, r, "R10")
+	checkReattachAfterSave(w, r, "R13")
+	checkLanguageDerefGuarded(w, r, "R14", reach)
 	{
 		roles := resolveEngineRoles(w)
 		checkWhoMayCall(w, r, "R11", "State/Memory.Invalidate is called only by the pre-VM hook",
